@@ -3,6 +3,8 @@ import GeosModel.Proofs.WKB.Rewrite
 namespace GeosModel.WKB
 open GeosModel
 
+variable {arc : ArcOracle}
+
 mutual
   theorem dep_le_length (c : Cfg) : ∀ (g : G) (e : Int), dep g ≤ (writeG c e g).length
     | .point s, e => by have := writeG_length_ge c e (.point s); simp only [dep]; omega
@@ -53,8 +55,8 @@ theorem sridOut_eq (c : Cfg) (srid : Int) :
   cases c.flavor <;> cases c.srid <;> simp
 
 /-- what `read` returns on the bytes of `write`, for every configuration -/
-theorem read_write (c : Cfg) (g : Geom) (hwf : WFG g.g = true) (hf : Fits g.g = true)
-    (hs : sridFits g.srid = true) : read (write c g) = .ok (canon c g) := by
+theorem read_write (c : Cfg) (g : Geom) (hwf : WFG arc g.g = true) (hf : Fits g.g = true)
+    (hs : sridFits g.srid = true) : read arc (write c g) = .ok (canon c g) := by
   have he : sridFits (if c.srid then g.srid else 0) = true := by
     cases c.srid <;> simp [hs, sridFits_zero]
   have hdep := dep_le_length c g.g (if c.srid then g.srid else 0)
@@ -72,7 +74,7 @@ theorem writeG_iso_srid (c : Cfg) (h : c.flavor = .iso) (e : Int) (g : G) : writ
   cases g <;> simp only [writeG, collHeader, header_iso c _ _ _ e h]
 
 /-- re-writing the geometry returned by the round trip reproduces the bytes -/
-theorem write_canon (c : Cfg) (g : Geom) (hwf : WFG g.g = true) (hn : NanPtCanon g.g = true) :
+theorem write_canon (c : Cfg) (g : Geom) (hwf : WFG arc g.g = true) (hn : NanPtCanon g.g = true) :
     write c (canon c g) = write c g := by
   unfold write canon
   simp only
